@@ -842,7 +842,8 @@ def make_sessions(ctx, pid):
                     sessions.append(gen_enumerated(live, rng, variant, ioname, True, tuple(prefix) + seq, mode))
                     enumerated += 1
         for variant, ioname, mode, walk in WALKS:
-            for bond in (False, True):
+            # managers without bonding data base exist for `none` and `dispyn` only
+            for bond in ((False, True) if ioname in ("none", "dispyn") else (True,)):
                 for k in range(len(walk) + 1):
                     sessions.append(gen_enumerated(live, rng, variant, ioname, bond, tuple(walk[:k]) + ("pf",), mode))
                     enumerated += 1
